@@ -7,4 +7,4 @@ Extraction Language OCaml.
 Extraction "model_oom.ml"
   init_bus init_bus_full step step_f step_oom fail_set fail_at no_fail alloc_count recipients
   find_conn lookup b_conns b_services b_pending c_id c_active c_owned c_rules requester
-  run_sop sop_pre run_sops header_set_field d_bytes d_alloc PAD JUNK.
+  run_sop sop_pre run_sops header_set_field d_bytes d_alloc PAD JUNK msg_marshal m_locked.
